@@ -123,7 +123,7 @@ run m39 semantic "$S4/m39.diff"     # LendToRight: left keeps the larger half
 run m40 semantic "$S4/m40.diff"     # LendToRight: left size from the right count
 run m46 semantic "$S4/m46.diff"     # LendToRight: moveCount + 1
 run y12 semantic "$S4/y12.diff"     # merge with smaller sibling: <=
-run p19 semantic "$S4/p19.diff"     # promoteChildAsNewRoot: prefix adjustment inverted
+run promote-prefix semantic "" map.go '/^func \(m \*OrderedMap\) promoteChildAsNewRoot\(/,/^}/s/dataSlab\.header\.size - mapDataSlabPrefixSize \+ mapRootDataSlabPrefixSize/dataSlab.header.size - mapRootDataSlabPrefixSize + mapDataSlabPrefixSize/'   # promoteChildAsNewRoot: prefix adjustment inverted (s4 p19 hits another function)
 run p30 semantic "$S4/p30.diff"     # splitRoot: root data slab size not adjusted
 run p31 semantic "$S4/p31.diff"     # splitRoot: extra data not removed from the old root
 run p32 semantic "$S4/p32.diff"     # splitRoot: new root size for one header
@@ -139,6 +139,12 @@ run n05 semantic "$S4/n05.diff"     # Set: size not increased
 run n06 semantic "$S4/n06.diff"     # Remove: size not decreased
 run n09 semantic "$S4/n09.diff"     # Set: value limit from the VALUE size
 run x03 semantic "$S4/x03.diff"     # get: comparator error not wrapped
+run x04 semantic "$S4/x04.diff"     # Set: comparator error not wrapped
+run x05 semantic "$S4/x05.diff"     # Remove: comparator error not wrapped
+run x21 semantic "$S4/x21.diff"     # Set: value.Storable error not wrapped
+run x25 semantic "$S4/x25.diff"     # MapDataSlab.Split: storage error not wrapped
+run x27 semantic "$S4/x27.diff"     # splitRoot: storage error not wrapped
+run x33 semantic "$S4/x33.diff"     # promoteChildAsNewRoot: storage error not wrapped
 # ---- hand-made: aliasing ---------------------------------------------------------------------------------------
 run alias-slice  untransl "" map_elements_hashkey.go 's/^\te\.hkeys = merge\(e\.hkeys, rElems\.hkeys\)$/\thk := e.hkeys\n\te.hkeys = merge(hk, rElems.hkeys)/'
 run alias-object untransl "" map_data_slab.go '/^func \(m \*MapDataSlab\) LendToRight\(/,/^}/s/^\trightSlab\.elements = rightElements$/\tm.elements = rightElements/'
